@@ -7,7 +7,7 @@ from common import cnode, cstr, clist, enc_node
 import impl
 from impl import Document, extract, build, no_gc
 import nsgen
-from nsgen import (gen_src, gen_api_tree, gen_map, caller_term, recorded_order, ord_term, real_prefixes,
+from nsgen import (gen_src, gen_api_tree, gen_map, gen_redeclare_case, caller_term, recorded_order, ord_term, real_prefixes,
                    real_serialize, enc_pairs, start_tags, tree_namespaces, bfs_tags)
 
 XML_NS = impl.XML_NS
@@ -286,7 +286,11 @@ def run(ctx, args):
     n = 700 if quick else 12000
     for i in range(n):
         m = mapping_json(gen_map(ctx.rng))
-        if ctx.rng.random() < 0.6:
+        r = ctx.rng.random()
+        if r < 0.06:
+            src, mm = gen_redeclare_case(ctx.rng)
+            cases.append({"route": "parse", "src": src, "mapping": mapping_json(mm)})
+        elif r < 0.6:
             cases.append({"route": "parse", "src": gen_src(ctx.rng, rich=False), "mapping": m})
         else:
             cases.append({"route": "api", "tree": gen_api_tree(ctx.rng, xmlns_attr=ctx.rng.random() < 0.08), "mapping": m})
